@@ -250,8 +250,23 @@ def decision_sites(fn, pb0, live):
         if d["kind"] == "min" and d["use"] is None:
             continue        # a bare minimum (a table entry, a cost): not a decision
         out.append({k: v for k, v in d.items() if k not in ("kind", "use")})
-    # direct comparisons  `if A + tbl[..] < tbl[..]`  (hrevolve_recurse)
+    # direct comparisons  `if A + tbl[..] < tbl[..]`  (hrevolve_recurse); also through a boolean local
+    # (`flag = True / flag = A < B` ... `if flag:`): the comparison is the decision
+    flagdefs = {}
     for n in ast.walk(fn):
+        if isinstance(n, ast.Assign) and len(n.targets) == 1 and isinstance(n.targets[0], ast.Name) and id(n) not in live.dead_nodes:
+            flagdefs.setdefault(n.targets[0].id, []).append(n)
+    synthetic = []
+    for n in ast.walk(fn):
+        if isinstance(n, ast.If) and isinstance(n.test, ast.Name) and n.test.id in flagdefs and id(n) not in live.dead_nodes:
+            cmps = [a for a in flagdefs[n.test.id] if isinstance(a.value, ast.Compare)]
+            others = [a for a in flagdefs[n.test.id] if not isinstance(a.value, ast.Compare)]
+            if len(cmps) == 1 and all(isinstance(a.value, ast.Constant) for a in others):
+                fake = ast.If(cmps[0].value, n.body, n.orelse)
+                ast.copy_location(fake, cmps[0])
+                fake._site = cmps[0].value
+                synthetic.append(fake)
+    for n in list(ast.walk(fn)) + synthetic:
         if id(n) in live.dead_nodes:
             continue
         if isinstance(n, ast.If) and isinstance(n.test, ast.Compare) and len(n.test.ops) == 1 and \
@@ -261,19 +276,28 @@ def decision_sites(fn, pb0, live):
                 and not any(isinstance(x, ast.Call) for x in ast.walk(n.test)):
             names = {x.id for x in ast.walk(n.test) if isinstance(x, ast.Name)}
             if names & set(TABLE_NAMES):
-                pb = at_site(pb0, fn, n.test)
+                pb = at_site(pb0, fn, getattr(n, "_site", n.test))
                 out.append(dict(direct=True, left=pkey(pb.poly(n.test.left)), right=pkey(pb.poly(n.test.comparators[0])),
                                 op=type(n.test.ops[0]).__name__, node=n, text=" ".join(ast.unparse(n.test).split())))
     return out
 
 
-def direct_table(fn, pb):
-    """table entries of the form  tbl[...] = min(A, B)  -> list of frozenset({A, B})"""
+def direct_table(fn, pb, targets=None):
+    """table entries of the form  tbl[...] = min(A, B)  -> list of frozenset({A, B}); `targets` (a list) receives
+    (entry, {A, B}) for the stores whose right-hand side is such a min"""
     out = []
     for n in ast.walk(fn):
         if isinstance(n, ast.Call) and getattr(n.func, "id", None) == "min" and len(n.args) == 2 and \
                 all(not isinstance(a, (ast.ListComp, ast.List)) for a in n.args):
             out.append(frozenset(pkey(pb.poly(a)) for a in n.args))
+    if targets is not None:
+        for n in ast.walk(fn):
+            if isinstance(n, ast.Assign) and len(n.targets) == 1 and isinstance(n.targets[0], ast.Subscript) \
+                    and isinstance(n.value, ast.Call) and getattr(n.value.func, "id", None) == "min" and len(n.value.args) == 2 \
+                    and all(not isinstance(a, (ast.ListComp, ast.List)) for a in n.value.args):
+                tgt = ast.Subscript(n.targets[0].value, n.targets[0].slice, ast.Load())
+                ast.fix_missing_locations(ast.copy_location(tgt, n.targets[0]))
+                targets.append((pkey(pb.poly(tgt)), frozenset(pkey(pb.poly(a)) for a in n.value.args)))
     return out
 
 
@@ -361,7 +385,8 @@ def run(chk, ctx):
             pbT = builder(tname, extra)
             pb = builder(tname)
             tsites = table_sites(tfn, pbT)
-            tdirect = direct_table(tfn, pbT)
+            ttargets = []
+            tdirect = direct_table(tfn, pbT, ttargets)
             k = 0
             for d in decision_sites(dfn, pb, live):
                 cons = f"{drel[:-3].replace('/', '.')}.{dname}#decision[{k}]<->{tname}"
@@ -369,6 +394,11 @@ def run(chk, ctx):
                 if d.get("direct"):
                     want = frozenset([d["left"], d["right"]])
                     ok = want in tdirect
+                    if not ok:
+                        # `E < B` where the table defines E = min(B, A): the same decision as `A < B`
+                        for entry, args_ in ttargets:
+                            if d["left"] == entry and d["right"] in args_:
+                                ok = True
                     opok = d["op"] in ("Lt", "LtE")
                     res.append((cons, True if (ok and opok) else (False if tdirect else None),
                                f"`{d['text']}`: " + ("the table stores min of exactly these two terms" if ok else
@@ -547,6 +577,8 @@ def homo(chk, ctx, rf):
             why = ""
             ren = dict(INDEX_NAMES)
             ren[d.get("argvar") or "jmin"] = d["var"]
+            # the production is emitted where the decision is taken: the same path constants (`if K == 0:`) hold
+            ren.update(path_constants(dfn, d["node"]))
             pbj = builder(tname)
             pbj.rename = ren
             for it in items:
